@@ -51,7 +51,8 @@ Definition yajilin_finish (dir : ascii) (num : str) (n_read : nat) : res (option
   else if negb (in_1234 dir) then Ok None
   else if str_eqb num ["."%char] then Ok (Some (n_read, [VStr s_qq]))
   else let* n := py_int num 16 in
-       Ok (Some (n_read, [VStr (dir_char (ord dir - 48) :: py_str_int n)])).
+       if n <? 0 then Ok None
+       else Ok (Some (n_read, [VStr (dir_char (ord dir - 48) :: py_str_int n)])).
 
 (* YajilinClue.deserialize(env, data, idx) with s = data[idx:] *)
 Definition yajilin_de (s : str) : res (option (nat * list pv)) :=
